@@ -141,6 +141,15 @@ def find : Tree → Int → Option (Int × Nat)
     else if k < nk then find l k
     else some (nk, nv)
 
+/-- A store through the pointer returned by `GetPtr` (`&n.value.V` of the node `find` stops at): the value of
+that node is replaced in place; nothing else changes. -/
+def setValue : Tree → Int → Nat → Tree
+  | nil, _, _ => nil
+  | node nk nv l r h, k, v =>
+    if nk < k then node nk nv l (setValue r k v) h
+    else if k < nk then node nk nv (setValue l k v) r h
+    else node nk v l r h
+
 /-- `validate`: `true` = returns normally, `false` = `log.Panicf`. -/
 def validate : Tree → Option Int → Option Int → Bool
   | nil, _, _ => true
@@ -192,6 +201,12 @@ def set (leafH : Nat) (t : TreeMap) (k : Int) (v : Nat) : Option TreeMap :=
 
 /-- `Delete`. -/
 def delete (t : TreeMap) (k : Int) : Option TreeMap := (t.root.remove k).map (⟨·⟩)
+
+/-- `if p := t.GetPtr(k); p != nil { *p = v }`: new state and whether the pointer was non-nil. -/
+def update (t : TreeMap) (k : Int) (v : Nat) : TreeMap × Bool :=
+  match t.root.find k with
+  | none => (t, false)
+  | some _ => (⟨t.root.setValue k v⟩, true)
 
 def isEmpty (t : TreeMap) : Bool := match t.root with | .nil => true | _ => false
 
